@@ -753,6 +753,10 @@ func (env *Env) callExpr(e *CExpr) CVal {
 	case "bytes":
 		s := env.force(arg(0))
 		return CVal{T: env.bsOf(s)}
+	case "bytesarrv": // bytes of a fixed-size array value
+		a := env.force(arg(0))
+		at := a.Ty.Underlying().(*types.Array)
+		return CVal{T: UF("bs_of", SBS, a.T, bv64(0), bv64(at.Len()))}
 	case "bytesof": // bytes of an addressable fixed array
 		a := arg(0)
 		at := a.Ty.Underlying().(*types.Array)
